@@ -110,7 +110,7 @@ deriving Repr
 
 structure Srv where
   cfg    : Cfg
-  chans  : List Chan
+  chans  : List (Str × Chan)         -- `channels`: handler ↦ channel
   index  : List (Str × List Str)     -- `in_channels`: username ↦ channel handlers
   router : List (Str × List Nat)     -- `connections`: username ↦ connection handlers
   conns  : List Conn                 -- live connections
@@ -172,25 +172,12 @@ def setA {β} (l : List (Str × β)) (k : Str) (v : β) : List (Str × β) :=
   | [] => [(k, v)]
   | (k', v') :: rest => if k' = k then (k, v) :: rest else (k', v') :: setA rest k v
 
-def eraseA {β} (l : List (Str × β)) (k : Str) : List (Str × β) :=
-  match l with
-  | [] => []
-  | (k', v') :: rest => if k' = k then rest else (k', v') :: eraseA rest k
+/-- remove every binding of `k` (so that `lookupA (eraseA l k) k = none` needs no well-formedness) -/
+def eraseA {β} (l : List (Str × β)) (k : Str) : List (Str × β) := l.filter (fun p => p.1 ≠ k)
 
-def findChan (cs : List Chan) (h : Str) : Option Chan :=
-  match cs with
-  | [] => none
-  | c :: rest => if c.handler = h then some c else findChan rest h
-
-def putChan (cs : List Chan) (c : Chan) : List Chan :=
-  match cs with
-  | [] => [c]
-  | c' :: rest => if c'.handler = c.handler then c :: rest else c' :: putChan rest c
-
-def delChan (cs : List Chan) (h : Str) : List Chan :=
-  match cs with
-  | [] => []
-  | c' :: rest => if c'.handler = h then rest else c' :: delChan rest h
+def findChan (cs : List (Str × Chan)) (h : Str) : Option Chan := lookupA cs h
+def putChan (cs : List (Str × Chan)) (c : Chan) : List (Str × Chan) := setA cs c.handler c
+def delChan (cs : List (Str × Chan)) (h : Str) : List (Str × Chan) := eraseA cs h
 
 def findConn (cs : List Conn) (k : Nat) : Option Conn :=
   match cs with
@@ -264,196 +251,253 @@ def paginateAcl (l : List Str) (page size : Option Nat) : List Str × Option (Na
 
 /-! ## disconnect clean-up -/
 
-/-- outcome of removing `u` from channel `h` (the common tail of LEAVE and of the clean-up):
-    new channel list and the events routed.  `excl` is the requesting connection (none in clean-up).
-    `hand` tells whether the owner hand-over notification could be forwarded. -/
+/-- channel `c` after `remove_member(u)`: owner cleared if it was `u`, reader cache rebuilt -/
+def withoutMember (dom : Str) (c : Chan) (u : Str) : Chan :=
+  rebuild dom { c with members := c.members.filter (· ≠ u), owner := if c.owner = some u then none else c.owner }
+
+/-- `pick_new_owner`: any remaining member; the implementation's choice is an oracle input, validated here -/
+def pickOwner (env : Env) (c1 : Chan) (u : Str) : Str :=
+  match lookupA env.owners c1.handler with
+  | some o => if o ∈ c1.members then o else c1.members.headD u
+  | none => c1.members.headD u
+
+def handoverEvents (s : Srv) (c2 : Chan) (pick : Str) : List Emit :=
+  routeTo s c2.members none (.event .joined (fullChan s c2.handler) (fullNid s pick) true)
+
+/-- outcome of removing `u` from channel `c` (the common tail of LEAVE and of the clean-up):
+    new state, the hand-over events routed, and whether the hand-over notification could be forwarded. -/
 def removeMember (s : Srv) (c : Chan) (u : Str) (env : Env) : Srv × List Emit × Bool :=
-  let wasOwner := c.owner = some u
-  let c1 : Chan := rebuild s.cfg.domain
-    { c with members := c.members.filter (· ≠ u), owner := if wasOwner then none else c.owner }
-  let s1 : Srv := { s with index := indexDel s u c.handler }
-  if c1.members.isEmpty then
-    ({ s1 with chans := delChan s1.chans c.handler }, [], true)
-  else if wasOwner then
-    -- `pick_new_owner`: any remaining member; the choice is an oracle input, validated here
-    let pick := match lookupA env.owners c.handler with
-      | some o => if o ∈ c1.members then o else c1.members.headD u
-      | none => c1.members.headD u
-    let c2 : Chan := { c1 with owner := some pick }
-    let s2 : Srv := { s1 with chans := putChan s1.chans c2 }
-    if s.cfg.fwdEvent && !env.evOk then (s2, [], false)
-    else (s2, routeTo s2 c2.members none (.event .joined (fullChan s c.handler) (fullNid s pick) true), true)
-  else ({ s1 with chans := putChan s1.chans c1 }, [], true)
+  if (withoutMember s.cfg.domain c u).members.isEmpty then
+    ({ s with index := indexDel s u c.handler, chans := delChan s.chans c.handler }, [], true)
+  else if c.owner = some u then
+    if s.cfg.fwdEvent && !env.evOk then
+      ({ s with index := indexDel s u c.handler,
+                chans := putChan s.chans { withoutMember s.cfg.domain c u with owner := some (pickOwner env (withoutMember s.cfg.domain c u) u) } },
+        [], false)
+    else
+      ({ s with index := indexDel s u c.handler,
+                chans := putChan s.chans { withoutMember s.cfg.domain c u with owner := some (pickOwner env (withoutMember s.cfg.domain c u) u) } },
+        handoverEvents s { withoutMember s.cfg.domain c u with owner := some (pickOwner env (withoutMember s.cfg.domain c u) u) }
+          (pickOwner env (withoutMember s.cfg.domain c u) u), true)
+  else ({ s with index := indexDel s u c.handler, chans := putChan s.chans (withoutMember s.cfg.domain c u) }, [], true)
+
+def leftEvents (s : Srv) (c : Chan) (u : Str) (excl : Option Nat) : List Emit :=
+  routeTo s c.members excl (.event .left (fullChan s c.handler) (fullNid s u) (c.owner = some u))
+
+/-- one channel of `leave_all_channels` -/
+def leaveOne (u : Str) (env : Env) (acc : Srv × List Emit) (h : Str) : Srv × List Emit :=
+  match findChan acc.1.chans h with
+  | none => acc
+  | some c =>
+    if u ∈ c.members then
+      ((removeMember acc.1 c u env).1,
+        acc.2 ++ (if acc.1.cfg.fwdEvent && !env.evOk then [] else leftEvents acc.1 c u none) ++ (removeMember acc.1 c u env).2.1)
+    else acc
 
 /-- `leave_all_channels` for the last connection of `u` -/
 def leaveAll (s : Srv) (u : Str) (env : Env) : Srv × List Emit :=
-  let hs := indexOf s u
-  let s0 : Srv := { s with index := eraseA s.index u }
-  hs.foldl (fun (acc : Srv × List Emit) h =>
-    let (st, out) := acc
-    match findChan st.chans h with
-    | none => (st, out)
-    | some c =>
-      if u ∈ c.members then
-        let evs := if st.cfg.fwdEvent && !env.evOk then []
-          else routeTo st c.members none (.event .left (fullChan st h) (fullNid st u) (c.owner = some u))
-        let (st', evs2, _) := removeMember st c u env
-        (st', out ++ evs ++ evs2)
-      else (st, out)) (s0, [])
+  (indexOf s u).foldl (leaveOne u env) ({ s with index := eraseA s.index u }, [])
+
+def withoutConn (s : Srv) (k : Nat) : Srv := { s with conns := s.conns.filter (·.id ≠ k) }
+def restConns (s : Srv) (u : Str) (k : Nat) : List Nat := (connsOf s u).filter (· ≠ k)
+
+/-- `unregister_connection` + clean-up when it was the user's last connection -/
+def dropAuthed (s : Srv) (k : Nat) (u : Str) (env : Env) : Srv × List Emit :=
+  if (restConns s u k).isEmpty then leaveAll { withoutConn s k with router := eraseA s.router u } u env
+  else ({ withoutConn s k with router := setA s.router u (restConns s u k) }, [])
 
 /-- the connection `k` ends (socket closed, or closed by the server after an error frame) -/
 def dropConn (s : Srv) (k : Nat) (env : Env) : Srv × List Emit :=
   match findConn s.conns k with
   | none => (s, [])
   | some c =>
-    let s1 : Srv := { s with conns := s.conns.filter (·.id ≠ k) }
     match c.phase with
-    | .authed u =>
-      let rest := (connsOf s1 u).filter (· ≠ k)
-      if rest.isEmpty then leaveAll { s1 with router := eraseA s1.router u } u env
-      else ({ s1 with router := setA s1.router u rest }, [])
-    | _ => (s1, [])
+    | .authed u => dropAuthed s k u env
+    | _ => (withoutConn s k, [])
 
 /-- queue an error to `k`; a non-recoverable one closes the connection -/
 def fail (s : Srv) (k : Nat) (id : Option Nat) (r : Reason) (env : Env) : Srv × List Emit :=
   if r.recoverable then (s, [{ conn := k, frame := errFrame id r }])
-  else
-    let (s', evs) := dropConn s k env
-    (s', { conn := k, frame := errFrame id r, close := true } :: evs)
+  else ((dropConn s k env).1, { conn := k, frame := errFrame id r, close := true } :: (dropConn s k env).2)
 
 def reply (s : Srv) (k : Nat) (f : Frame) : Srv × List Emit := (s, [{ conn := k, frame := f }])
 
-/-! ## authenticated requests -/
+/-! ## authenticated requests
+
+Every handler is `check` (pure admission decision: a refusal `(id?, reason)` or the admitted data)
+followed by `commit`.  A refusal never changes channel state; `fail` turns it into an ERROR frame and,
+for non-recoverable reasons, into the end of the requesting connection. -/
+
+abbrev Refusal := Option Nat × Reason
+
+def chanOrNew (s : Srv) (h : Str) : Chan := (findChan s.chans h).getD (newChan s h)
+
+/-- who is to be joined: the caller, or a local, connected user named by the channel's owner -/
+def joinMember (s : Srv) (u : Str) (c : Chan) (ob : Option (Str × Str)) : Except Reason Str :=
+  match ob with
+  | some (ou, od) =>
+    if c.owner ≠ some u then .error .forbidden
+    else if od ≠ s.cfg.domain then .error .notImplemented
+    else if (connsOf s ou).isEmpty then .error .userNotRegistered
+    else .ok ou
+  | none => .ok u
+
+def joinAdmit (s : Srv) (c : Chan) (m : Str) : Option Reason :=
+  if !isAllowed c.joinAcl m s.cfg.domain then some .notAllowed
+  else if m ∈ c.members then some .userInChannel
+  else if c.members.length ≥ c.maxClients then some .channelIsFull
+  else if (indexOf s m).length ≥ s.cfg.maxSubs then some .policyViolation
+  else none
+
+/-- JOIN admission: `(handler, new member)` -/
+def joinCheck (s : Srv) (u : Str) (id : Nat) (chanRaw : Str) (obRaw : Option Str) : Except Refusal (Str × Str) :=
+  match Id.parseChannelId chanRaw with
+  | none => .error (none, .badRequest)
+  | some (h, d) =>
+    if obRaw.map Id.parseNid = some none then .error (none, .badRequest)
+    else if d ≠ s.cfg.domain then .error (some id, .notImplemented)
+    else if (findChan s.chans h).isNone && s.chans.length ≥ s.cfg.maxChannels then .error (some id, .serverOverloaded)
+    else match joinMember s u (chanOrNew s h) (obRaw.bind Id.parseNid) with
+      | .error r => .error (some id, r)
+      | .ok m =>
+        match joinAdmit s (chanOrNew s h) m with
+        | some r => .error (some id, r)
+        | none => .ok (h, m)
+
+def withMember (dom : Str) (c : Chan) (m : Str) : Chan :=
+  rebuild dom { c with members := c.members ++ [m], owner := if c.owner.isNone then some m else c.owner }
+
+def joinedState (s : Srv) (h m : Str) : Srv :=
+  { s with chans := putChan s.chans (withMember s.cfg.domain (chanOrNew s h) m), index := indexAdd s m h }
+
+def joinedEvents (s : Srv) (k : Nat) (h m : Str) : List Emit :=
+  routeTo (joinedState s h m) (withMember s.cfg.domain (chanOrNew s h) m).members (some k)
+    (.event .joined (fullChan s h) (fullNid s m) (findChan s.chans h).isNone)
 
 def doJoin (s : Srv) (k : Nat) (u : Str) (id : Nat) (chanRaw : Str) (obRaw : Option Str) (env : Env) :
     Srv × List Emit :=
+  match joinCheck s u id chanRaw obRaw with
+  | .error (i, r) => fail s k i r env
+  | .ok (h, m) =>
+    -- a failed notification rolls the join back and the request fails as a whole
+    if s.cfg.fwdEvent && !env.evOk then fail s k none .internalServerError env
+    else (joinedState s h m, joinedEvents s k h m ++ [{ conn := k, frame := .joinAck id chanRaw }])
+
+/-- who is to be removed (a foreign NID is never a member) -/
+def leaveTarget (s : Srv) (u : Str) (c : Chan) (ob : Option (Str × Str)) : Except Reason Str :=
+  match ob with
+  | some (ou, od) =>
+    if c.owner ≠ some u then .error .forbidden
+    else if od ≠ s.cfg.domain then .error .userNotInChannel
+    else .ok ou
+  | none => .ok u
+
+/-- LEAVE admission: `(channel, member to remove)` -/
+def leaveCheck (s : Srv) (u : Str) (id : Nat) (chanRaw : Str) (obRaw : Option Str) : Except Refusal (Chan × Str) :=
   match Id.parseChannelId chanRaw with
-  | none => fail s k none .badRequest env
+  | none => .error (none, .badRequest)
   | some (h, d) =>
-    let ob : Option (Option (Str × Str)) := obRaw.map Id.parseNid
-    if ob = some none then fail s k none .badRequest env
-    else if d ≠ s.cfg.domain then fail s k (some id) .notImplemented env
-    else
-      let existing := findChan s.chans h
-      if existing.isNone && s.chans.length ≥ s.cfg.maxChannels then fail s k (some id) .serverOverloaded env
-      else
-        let c := existing.getD (newChan s h)
-        let created := existing.isNone
-        -- admission (a refusal leaves no trace: a just-created empty channel is dropped again)
-        let admit : Except Reason Str :=
-          match ob with
-          | some (some (ou, od)) =>
-            if c.owner ≠ some u then .error .forbidden
-            else if od ≠ s.cfg.domain then .error .notImplemented
-            else if (connsOf s ou).isEmpty then .error .userNotRegistered
-            else .ok ou
-          | _ => .ok u
-        match admit with
-        | .error r => fail s k (some id) r env
-        | .ok m =>
-          if !isAllowed c.joinAcl m s.cfg.domain then fail s k (some id) .notAllowed env
-          else if m ∈ c.members then fail s k (some id) .userInChannel env
-          else if c.members.length ≥ c.maxClients then fail s k (some id) .channelIsFull env
-          else if (indexOf s m).length ≥ s.cfg.maxSubs then fail s k (some id) .policyViolation env
-          else if s.cfg.fwdEvent && !env.evOk then
-            -- the notification failed: the join is rolled back and the request fails as a whole
-            fail s k none .internalServerError env
-          else
-            let c1 := rebuild s.cfg.domain
-              { c with members := c.members ++ [m], owner := if c.owner.isNone then some m else c.owner }
-            let s1 : Srv := { s with chans := putChan s.chans c1, index := indexAdd s m h }
-            let evs := routeTo s1 c1.members (some k) (.event .joined (fullChan s h) (fullNid s m) created)
-            (s1, evs ++ [{ conn := k, frame := .joinAck id chanRaw }])
+    if obRaw.map Id.parseNid = some none then .error (none, .badRequest)
+    else if d ≠ s.cfg.domain then .error (some id, .notImplemented)
+    else match findChan s.chans h with
+      | none => .error (some id, .channelNotFound)
+      | some c =>
+        match leaveTarget s u c (obRaw.bind Id.parseNid) with
+        | .error r => .error (some id, r)
+        | .ok m => if m ∉ c.members then .error (some id, .userNotInChannel) else .ok (c, m)
+
+/-- the part of LEAVE after all checks passed -/
+def leaveTail (s : Srv) (k : Nat) (id : Nat) (c : Chan) (m : Str) (env : Env) : Srv × List Emit :=
+  if (removeMember s c m env).2.2 then
+    ((removeMember s c m env).1,
+      leftEvents s c m (some k) ++ [{ conn := k, frame := .leaveAck id }] ++ (removeMember s c m env).2.1)
+  else
+    ((fail (removeMember s c m env).1 k none .internalServerError env).1,
+      leftEvents s c m (some k) ++ [{ conn := k, frame := .leaveAck id }] ++ (removeMember s c m env).2.1
+        ++ (fail (removeMember s c m env).1 k none .internalServerError env).2)
 
 def doLeave (s : Srv) (k : Nat) (u : Str) (id : Nat) (chanRaw : Str) (obRaw : Option Str) (env : Env) :
     Srv × List Emit :=
-  match Id.parseChannelId chanRaw with
-  | none => fail s k none .badRequest env
-  | some (h, d) =>
-    let ob : Option (Option (Str × Str)) := obRaw.map Id.parseNid
-    if ob = some none then fail s k none .badRequest env
-    else if d ≠ s.cfg.domain then fail s k (some id) .notImplemented env
-    else match findChan s.chans h with
-      | none => fail s k (some id) .channelNotFound env
-      | some c =>
-        let target : Except Reason (Option Str) :=
-          match ob with
-          | some (some (ou, od)) =>
-            if c.owner ≠ some u then .error .forbidden
-            else .ok (if od = s.cfg.domain then some ou else none)   -- a foreign NID is never a member
-          | _ => .ok (some u)
-        match target with
-        | .error r => fail s k (some id) r env
-        | .ok none => fail s k (some id) .userNotInChannel env
-        | .ok (some m) =>
-          if m ∉ c.members then fail s k (some id) .userNotInChannel env
-          else if s.cfg.fwdEvent && !env.evOk then fail s k none .internalServerError env
-          else
-            let evs := routeTo s c.members (some k) (.event .left (fullChan s h) (fullNid s m) (c.owner = some m))
-            let (s1, evs2, handOk) := removeMember s c m env
-            let out := evs ++ [{ conn := k, frame := .leaveAck id }] ++ evs2
-            if handOk then (s1, out)
-            else
-              let (s2, evs3) := fail s1 k none .internalServerError env
-              (s2, out ++ evs3)
+  match leaveCheck s u id chanRaw obRaw with
+  | .error (i, r) => fail s k i r env
+  | .ok (c, m) =>
+    if s.cfg.fwdEvent && !env.evOk then fail s k none .internalServerError env
+    else leaveTail s k id c m env
+
+/-- what the modulator lets through: the payload to deliver -/
+def payloadGate (s : Srv) (p : Payload) (env : Env) : Except Reason Payload :=
+  if s.cfg.hasMod then
+    match env.verdict with
+    | .valid => .ok p
+    | .altered p' => .ok p'
+    | .invalid => .error .badRequest
+    | .failed => .error .internalServerError
+  else .ok p
+
+/-- BROADCAST admission: `(channel, payload to deliver)` -/
+def broadcastCheck (s : Srv) (u : Str) (id : Nat) (chanRaw : Str) (qos : Option Nat) (p : Payload) (env : Env) :
+    Except Refusal (Chan × Payload) :=
+  if qos.any (· > 1) || p.isEmpty || id = 0 then .error (none, .badRequest)      -- rejected by `deserialize`
+  else if p.length > s.cfg.maxPayload then .error (some id, .policyViolation)
+  else match Id.parseChannelId chanRaw with
+    | none => .error (none, .badRequest)
+    | some (h, d) =>
+      match payloadGate s p env with
+      | .error r => .error (some id, r)
+      | .ok p' =>
+        if d ≠ s.cfg.domain then .error (some id, .notImplemented)
+        else match findChan s.chans h with
+          | none => .error (some id, .channelNotFound)
+          | some c =>
+            if u ∉ c.members then .error (some id, .forbidden)
+            else if !isAllowed c.publishAcl u s.cfg.domain then .error (some id, .notAllowed)
+            else if p'.length > c.maxPayload then .error (some id, .policyViolation)
+            else .ok (c, p')
+
+def deliveries (s : Srv) (k : Nat) (u : Str) (chanRaw : Str) (c : Chan) (p' : Payload) : List Emit :=
+  routeTo s c.targets (some k) (.message (fullNid s u) chanRaw p')
 
 def doBroadcast (s : Srv) (k : Nat) (u : Str) (id : Nat) (chanRaw : Str) (qos : Option Nat) (p : Payload)
     (env : Env) : Srv × List Emit :=
-  if qos.any (· > 1) || p.isEmpty || id = 0 then fail s k none .badRequest env      -- rejected by `deserialize`
-  else if p.length > s.cfg.maxPayload then fail s k (some id) .policyViolation env
-  else match Id.parseChannelId chanRaw with
-  | none => fail s k none .badRequest env
+  match broadcastCheck s u id chanRaw qos p env with
+  | .error (i, r) => fail s k i r env
+  | .ok (c, p') =>
+    if qos = some 0 then (s, { conn := k, frame := .broadcastAck id } :: deliveries s k u chanRaw c p')
+    else (s, deliveries s k u chanRaw c p' ++ [{ conn := k, frame := .broadcastAck id }])
+
+def membersCheck (s : Srv) (u : Str) (id : Nat) (chanRaw : Str) : Except Refusal Chan :=
+  match Id.parseChannelId chanRaw with
+  | none => .error (none, .badRequest)
   | some (h, d) =>
-    -- the modulator (if any) sees the payload first
-    let gate : Except Reason Payload :=
-      if s.cfg.hasMod then
-        match env.verdict with
-        | .valid => .ok p
-        | .altered p' => .ok p'
-        | .invalid => .error .badRequest
-        | .failed => .error .internalServerError
-      else .ok p
-    match gate with
-    | .error r => fail s k (some id) r env
-    | .ok p' =>
-      if d ≠ s.cfg.domain then fail s k (some id) .notImplemented env
-      else match findChan s.chans h with
-        | none => fail s k (some id) .channelNotFound env
-        | some c =>
-          if u ∉ c.members then fail s k (some id) .forbidden env
-          else if !isAllowed c.publishAcl u s.cfg.domain then fail s k (some id) .notAllowed env
-          else if p'.length > c.maxPayload then fail s k (some id) .policyViolation env
-          else
-            let msgs := routeTo s c.targets (some k) (.message (fullNid s u) chanRaw p')
-            let ack : Emit := { conn := k, frame := .broadcastAck id }
-            if qos = some 0 then (s, ack :: msgs) else (s, msgs ++ [ack])
+    if d ≠ s.cfg.domain then .error (some id, .notImplemented)
+    else match findChan s.chans h with
+      | none => .error (some id, .channelNotFound)
+      | some c => if u ∉ c.members then .error (some id, .userNotInChannel) else .ok c
+
+def membersReply (s : Srv) (id : Nat) (chanRaw : Str) (c : Chan) (page size : Option Nat) : Frame :=
+  .membersAck id chanRaw (paginate (sortStrs (c.members.map (fullNid s))) page size 100).1
+    (paginate (sortStrs (c.members.map (fullNid s))) page size 100).2
 
 def doMembers (s : Srv) (k : Nat) (u : Str) (id : Nat) (chanRaw : Str) (page size : Option Nat) (env : Env) :
     Srv × List Emit :=
-  match Id.parseChannelId chanRaw with
-  | none => fail s k none .badRequest env
-  | some (h, d) =>
-    if d ≠ s.cfg.domain then fail s k (some id) .notImplemented env
-    else match findChan s.chans h with
-      | none => fail s k (some id) .channelNotFound env
-      | some c =>
-        if u ∉ c.members then fail s k (some id) .userNotInChannel env
-        else
-          let all := sortStrs (c.members.map (fullNid s))
-          let (slice, pg) := paginate all page size 100
-          reply s k (.membersAck id chanRaw slice pg)
+  match membersCheck s u id chanRaw with
+  | .error (i, r) => fail s k i r env
+  | .ok c => reply s k (membersReply s id chanRaw c page size)
+
+def ownedOrAll (s : Srv) (u : Str) (owner : Bool) (h : Str) : Bool :=
+  if owner then (match findChan s.chans h with | some c => c.owner = some u | none => false) else true
+
+def channelsReply (s : Srv) (u : Str) (id : Nat) (page size : Option Nat) (owner : Bool) : Frame :=
+  .channelsAck id (paginate (sortStrs (((indexOf s u).filter (ownedOrAll s u owner)).map (fullChan s))) page size 50).1
+    (paginate (sortStrs (((indexOf s u).filter (ownedOrAll s u owner)).map (fullChan s))) page size 50).2
 
 def doChannels (s : Srv) (k : Nat) (u : Str) (id : Nat) (page size : Option Nat) (owner : Bool) :
     Srv × List Emit :=
-  let hs := (indexOf s u).filter (fun h =>
-    if owner then (match findChan s.chans h with | some c => c.owner = some u | none => false) else true)
-  let all := sortStrs (hs.map (fullChan s))
-  let (slice, pg) := paginate all page size 50
-  reply s k (.channelsAck id slice pg)
+  reply s k (channelsReply s u id page size owner)
 
 def nidLt (a b : ANid) : Bool :=
-  let ua := a.user.getD []; let ub := b.user.getD []
-  if strLt ua ub then true else if strLt ub ua then false else strLt a.dom b.dom
+  if strLt (a.user.getD []) (b.user.getD []) then true
+  else if strLt (b.user.getD []) (a.user.getD []) then false else strLt a.dom b.dom
 
 def insertNid (x : ANid) : List ANid → List ANid
   | [] => [x]
@@ -466,83 +510,107 @@ def renderANid (n : ANid) : Str :=
 
 def toANid (p : Str × Str) : ANid := { user := if p.1.isEmpty then none else some p.1, dom := p.2 }
 
+/-- owner-only access to a local channel (GET_CHAN_ACL, SET_CHAN_ACL, SET_CHAN_CONFIG) -/
+def ownerCheck (s : Srv) (u : Str) (id : Nat) (h d : Str) : Except Refusal Chan :=
+  if d ≠ s.cfg.domain then .error (some id, .notAllowed)
+  else match findChan s.chans h with
+    | none => .error (some id, .channelNotFound)
+    | some c => if c.owner ≠ some u then .error (some id, .forbidden) else .ok c
+
+def getAclCheck (s : Srv) (u : Str) (id : Nat) (chanRaw : Str) : Except Refusal Chan :=
+  match Id.parseChannelId chanRaw with
+  | none => .error (none, .badRequest)
+  | some (h, d) => ownerCheck s u id h d
+
+def reportedAcl (c : Chan) (ty : AclType) : List Str :=
+  ((Acl.allowList (aclOf c ty)).foldr insertNid []).map renderANid
+
+def aclReply (id : Nat) (chanRaw : Str) (c : Chan) (ty : AclType) (page size : Option Nat) : Frame :=
+  .chanAcl id chanRaw ty (paginateAcl (reportedAcl c ty) page size).1 (paginateAcl (reportedAcl c ty) page size).2
+
 def doGetAcl (s : Srv) (k : Nat) (u : Str) (id : Nat) (chanRaw : Str) (ty : AclType) (page size : Option Nat)
     (env : Env) : Srv × List Emit :=
-  match Id.parseChannelId chanRaw with
-  | none => fail s k none .badRequest env
-  | some (h, d) =>
-    if d ≠ s.cfg.domain then fail s k (some id) .notAllowed env
-    else match findChan s.chans h with
-      | none => fail s k (some id) .channelNotFound env
-      | some c =>
-        if c.owner ≠ some u then fail s k (some id) .forbidden env
-        else
-          let all := ((Acl.allowList (aclOf c ty)).foldr insertNid []).map renderANid
-          let (slice, pg) := paginateAcl all page size
-          reply s k (.chanAcl id chanRaw ty slice pg)
+  match getAclCheck s u id chanRaw with
+  | .error (i, r) => fail s k i r env
+  | .ok c => reply s k (aclReply id chanRaw c ty page size)
 
 def setAclOf (c : Chan) (ty : AclType) (a : Acl) : Chan :=
   match ty with
   | .join => { c with joinAcl := a } | .publish => { c with publishAcl := a } | .read => { c with readAcl := a }
 
+def toAction : AclAction → Acl.Action | .add => .add | .remove => .remove
+
+def updatedAcl (c : Chan) (ty : AclType) (act : AclAction) (nidsRaw : List Str) : Acl :=
+  Acl.update (aclOf c ty) ((nidsRaw.map Id.parseNid).filterMap (fun o => o.map toANid)) (toAction act)
+
+/-- SET_CHAN_ACL admission: the channel to update -/
+def setAclCheck (s : Srv) (u : Str) (id : Nat) (chanRaw : Str) (ty : AclType) (act : AclAction)
+    (nidsRaw : List Str) : Except Refusal Chan :=
+  match Id.parseChannelId chanRaw with
+  | none => .error (none, .badRequest)
+  | some (h, d) =>
+    if (nidsRaw.map Id.parseNid).any Option.isNone then .error (none, .badRequest)
+    else match ownerCheck s u id h d with
+      | .error e => .error e
+      | .ok c =>
+        if Acl.totalEntries (updatedAcl c ty act nidsRaw) > c.maxClients then .error (some id, .policyViolation)
+        else .ok c
+
 def doSetAcl (s : Srv) (k : Nat) (u : Str) (id : Nat) (chanRaw : Str) (ty : AclType) (act : AclAction)
     (nidsRaw : List Str) (env : Env) : Srv × List Emit :=
-  match Id.parseChannelId chanRaw with
-  | none => fail s k none .badRequest env
-  | some (h, d) =>
-    let parsed := nidsRaw.map Id.parseNid
-    if parsed.any Option.isNone then fail s k none .badRequest env
-    else if d ≠ s.cfg.domain then fail s k (some id) .notAllowed env
-    else match findChan s.chans h with
-      | none => fail s k (some id) .channelNotFound env
-      | some c =>
-        if c.owner ≠ some u then fail s k (some id) .forbidden env
-        else
-          let ns : List ANid := parsed.filterMap (fun o => o.map toANid)
-          let a' := Acl.update (aclOf c ty) ns (match act with | .add => .add | .remove => .remove)
-          if Acl.totalEntries a' > c.maxClients then fail s k (some id) .policyViolation env
-          else
-            let c1 := rebuild s.cfg.domain (setAclOf c ty a')
-            ({ s with chans := putChan s.chans c1 }, [{ conn := k, frame := .setAclAck id }])
+  match setAclCheck s u id chanRaw ty act nidsRaw with
+  | .error (i, r) => fail s k i r env
+  | .ok c =>
+    ({ s with chans := putChan s.chans (rebuild s.cfg.domain (setAclOf c ty (updatedAcl c ty act nidsRaw))) },
+      [{ conn := k, frame := .setAclAck id }])
 
-def doGetConfig (s : Srv) (k : Nat) (u : Str) (id : Nat) (chanRaw : Str) (env : Env) : Srv × List Emit :=
+def getConfigCheck (s : Srv) (u : Str) (id : Nat) (chanRaw : Str) : Except Refusal Chan :=
   match Id.parseChannelId chanRaw with
-  | none => fail s k none .badRequest env
+  | none => .error (none, .badRequest)
   | some (h, _) =>
     match findChan s.chans h with
-    | none => fail s k (some id) .channelNotFound env
-    | some c =>
-      if u ∉ c.members then fail s k (some id) .forbidden env
-      else reply s k (.chanConfig id chanRaw c.maxClients c.maxPayload)
+    | none => .error (some id, .channelNotFound)
+    | some c => if u ∉ c.members then .error (some id, .forbidden) else .ok c
+
+def doGetConfig (s : Srv) (k : Nat) (u : Str) (id : Nat) (chanRaw : Str) (env : Env) : Srv × List Emit :=
+  match getConfigCheck s u id chanRaw with
+  | .error (i, r) => fail s k i r env
+  | .ok c => reply s k (.chanConfig id chanRaw c.maxClients c.maxPayload)
+
+def setConfigCheck (s : Srv) (u : Str) (id : Nat) (chanRaw : Str) (mc mp : Nat) : Except Refusal Chan :=
+  match Id.parseChannelId chanRaw with
+  | none => .error (none, .badRequest)
+  | some (h, d) =>
+    if d ≠ s.cfg.domain then .error (some id, .notAllowed)
+    else if mc > s.cfg.maxClients then .error (some id, .badRequest)
+    else if mp > s.cfg.maxPayload then .error (some id, .badRequest)
+    else ownerCheck s u id h d
+
+def mergeConfig (c : Chan) (mc mp : Nat) : Chan :=
+  { c with maxClients := if mc > 0 then mc else c.maxClients, maxPayload := if mp > 0 then mp else c.maxPayload }
 
 def doSetConfig (s : Srv) (k : Nat) (u : Str) (id : Nat) (chanRaw : Str) (mc mp : Nat) (env : Env) :
     Srv × List Emit :=
-  match Id.parseChannelId chanRaw with
-  | none => fail s k none .badRequest env
-  | some (h, d) =>
-    if d ≠ s.cfg.domain then fail s k (some id) .notAllowed env
-    else if mc > s.cfg.maxClients then fail s k (some id) .badRequest env
-    else if mp > s.cfg.maxPayload then fail s k (some id) .badRequest env
-    else match findChan s.chans h with
-      | none => fail s k (some id) .channelNotFound env
-      | some c =>
-        if c.owner ≠ some u then fail s k (some id) .forbidden env
-        else
-          let c1 : Chan := { c with maxClients := if mc > 0 then mc else c.maxClients,
-                                    maxPayload := if mp > 0 then mp else c.maxPayload }
-          ({ s with chans := putChan s.chans c1 }, [{ conn := k, frame := .setConfigAck id }])
+  match setConfigCheck s u id chanRaw mc mp with
+  | .error (i, r) => fail s k i r env
+  | .ok c => ({ s with chans := putChan s.chans (mergeConfig c mc mp) }, [{ conn := k, frame := .setConfigAck id }])
 
-def doModDirect (s : Srv) (k : Nat) (id : Option Nat) (p : Payload) (env : Env) : Srv × List Emit :=
-  if p.length > s.cfg.maxPayload then fail s k id .policyViolation env
-  else if !s.cfg.hasMod then fail s k none .unexpectedMessage env
-  else if !s.cfg.sendPrivate then fail s k none .unexpectedMessage env
+def modDirectCheck (s : Srv) (id : Option Nat) (p : Payload) (env : Env) : Except Refusal Nat :=
+  if p.length > s.cfg.maxPayload then .error (id, .policyViolation)
+  else if !s.cfg.hasMod then .error (none, .unexpectedMessage)
+  else if !s.cfg.sendPrivate then .error (none, .unexpectedMessage)
   else match id with
-    | none => fail s k none .badRequest env
+    | none => .error (none, .badRequest)
     | some i =>
       match env.directOk with
-      | none => fail s k none .internalServerError env
-      | some false => fail s k (some i) .badRequest env
-      | some true => reply s k (.modDirectAck i)
+      | none => .error (none, .internalServerError)
+      | some false => .error (some i, .badRequest)
+      | some true => .ok i
+
+def doModDirect (s : Srv) (k : Nat) (id : Option Nat) (p : Payload) (env : Env) : Srv × List Emit :=
+  match modDirectCheck s id p env with
+  | .error (i, r) => fail s k i r env
+  | .ok i => reply s k (.modDirectAck i)
 
 def authedStep (s : Srv) (k : Nat) (u : Str) (r : Req) (env : Env) : Srv × List Emit :=
   match r with
